@@ -78,7 +78,7 @@ def run(ctx):
     recs = pc.run_scripts(ctx, scripts, workers=8)
 
     # ---- leg C
-    rej = pc.validate(ctx, recs, TRACE_CFG, "C02", max_reject=12)
+    rej = pc.validate(ctx, recs, TRACE_CFG, "C02", max_reject=5)
     by_sig = pc.report(ctx, recs, rej)
     st = pc.steering_stats(ctx, recs)
     ctx.cov["evaluations"] = len(recs)
